@@ -3,7 +3,9 @@ R.scriptlang -- tokeniser for pybufrkit scripts as the property describes them:
 code, '...' and "..." literals (escape free), # comments to end of line, and
 ${expr} embedded queries that are recognised only outside literals and comments.
 A string with an unterminated literal or an unterminated ${ is outside the
-language (returns None).
+language (returns None), and so is one with a backslash inside a literal (escapes are
+not part of the property); anywhere else -- code, comment, expression -- a backslash
+is an ordinary character (in particular it does not continue a comment).
 """
 
 
@@ -18,6 +20,8 @@ def tokenise(s):
             j = s.find(c, i + 1)
             if j < 0:
                 return None
+            if '\\' in s[i:j + 1]:
+                return None           # literals are escape free: a backslash inside a literal is outside the language
             out.append(s[i:j + 1])
             i = j + 1
         elif c == '#':
